@@ -6,7 +6,9 @@
 //!
 //! K <tmo|-> <calls> <steps>                                   C19
 //!   calls  = `<kind><wd>` joined by `,`; kind m = Connection::call_method, p = Proxy::call, f = Proxy::call_with_flags(NoAutoStart),
-//!            n = Proxy::call_noreply; wd = how often the call's `sendmsg` answers Pending first, or `x` = sendmsg fails
+//!            n = Proxy::call_noreply; wd = how often the call's `sendmsg` answers Pending first, or `x` = sendmsg fails, or `L` =
+//!            the bytes go out at the first `sendmsg` poll (event `l<n>`; the peer can answer from then on) but `sendmsg` returns
+//!            Ok only at the next poll (event `w<n>`)
 //!   steps  = joined by `,`:  c<i> poll caller i once | t tick the executor once | R<i>/Q<i> the peer answers call i with a
 //!            return/error (only possible once call i is on the wire) | U/V stray return/error (reply serial of a call never
 //!            made) | G signal | H<i> signal whose reply_serial is call i's serial | J<i> method call with that reply_serial |
@@ -68,6 +70,11 @@ enum In {
 enum WAns {
     Pend(u32),
     Fail,
+    /// the bytes go out at once (the peer can answer), but `sendmsg` returns only when it is polled again — what a transport
+    /// whose write completes asynchronously, or a pre-empted thread on a multi-threaded executor, looks like to the caller
+    Late,
+    /// ... second half: return now
+    LateDone,
 }
 
 #[derive(Default)]
@@ -213,6 +220,19 @@ impl WriteHalf for WHalf {
                     g.wans.insert(member.clone(), WAns::Pend(d - 1));
                     g.ev.push(format!("s{}", n));
                     Poll::Pending
+                }
+                Some(WAns::Late) => {
+                    g.wans.insert(member.clone(), WAns::LateDone);
+                    g.ev.push(format!("l{}", n));
+                    if let Some(m) = msg.clone() {
+                        g.written.push((member.clone(), m));
+                    }
+                    g.wtime.insert(member.clone(), Instant::now());
+                    Poll::Pending
+                }
+                Some(WAns::LateDone) => {
+                    g.ev.push(format!("w{}", n));
+                    Poll::Ready(Ok(len))
                 }
                 _ => {
                     g.ev.push(format!("w{}", n));
@@ -617,6 +637,8 @@ fn k_mode(w: &[&str]) -> String {
             };
             let ans = if &c[1..] == "x" {
                 WAns::Fail
+            } else if &c[1..] == "L" {
+                WAns::Late
             } else {
                 match c[1..].parse() {
                     Ok(d) => WAns::Pend(d),
